@@ -74,8 +74,13 @@ def parse_history(arg):
     from vtlengine.Exceptions import VTLEngineException
     from . import textforms
     out = []
-    for t in arg['texts']:
+    from vtlengine import prettify
+    for item in arg['texts']:
+        op, t = ('create_ast', item) if isinstance(item, str) else (item[0], item[1])
         try:
+            if op == 'prettify':       # the other entry point of the parser (create_ast_with_comments)
+                out.append({'kind': 'ast', 'digest': hashlib.sha1(prettify(t).encode()).hexdigest()[:16]})
+                continue
             ast = create_ast(t)
             out.append({'kind': 'ast', 'digest': hashlib.sha1(json.dumps(textforms.plain(ast), sort_keys=True, default=str).encode()).hexdigest()[:16]})
         except Exception as e:  # noqa
